@@ -1050,8 +1050,8 @@ M('lanczos-subdiag-zero-only-on-exact-breakdown', 'C01,C07', 'subdiagonal-zero-i
 M('davidson-extension-plain-qr', 'C15', 'search-space-basis-orthonormal',
   [('LinAlg/SearchSpace.h', "        append_new_vectors_to_basis(Q);", "        append_new_vectors_to_basis(new_vect);")], 'reverts fix F34: the raw corrections are appended')
 M('davidson-extension-unpivoted-qr', 'C15', 'search-space-basis-orthonormal',
-  [('LinAlg/SearchSpace.h', "Eigen::ColPivHouseholderQR<Matrix> qr(W);\n        qr.setThreshold(std::sqrt(Eigen::NumTraits<Scalar>::epsilon()));\n        const Index rank = qr.rank();",
-    "Eigen::HouseholderQR<Matrix> qr(W);\n        const Index rank = W.cols();")], 'a plain QR cannot reveal the rank')
+  [('LinAlg/SearchSpace.h', "Eigen::ColPivHouseholderQR<Matrix> qr(W);", "Eigen::HouseholderQR<Matrix> qr(W);"),
+   ('LinAlg/SearchSpace.h', "        Index rank = 0;\n        while (rank < qr.nonzeroPivots() && std::abs(qr.matrixR()(rank, rank)) > new_dir_thresh)\n            rank++;\n", "        const Index rank = W.cols();\n        (void) new_dir_thresh;\n")], 'a plain QR cannot reveal the rank')
 M('davidson-extension-rank-not-applied', 'C15', 'search-space-basis-orthonormal',
   [('LinAlg/SearchSpace.h', "Matrix::Identity(W.rows(), rank);", "Matrix::Identity(W.rows(), W.cols());")], 'all columns of Q kept')
 M('davidson-correction-loop-unclamped', 'C15', 'counts-clamped-by-available-pairs',
@@ -1062,9 +1062,17 @@ M('davidson-converged-starts-true', 'C15', 'counts-clamped-by-available-pairs',
   [('LinAlg/RitzPairs.h', "bool converged = (norms.size() >= number_eigenvalues);", "bool converged = true;")], 'reverts fix F35 (c)')
 N('davidson-extension-full-pivoting', 'C15',
   [('LinAlg/SearchSpace.h', "Eigen::ColPivHouseholderQR<Matrix> qr(W);", "Eigen::FullPivHouseholderQR<Matrix> qr(W);"),
-   ('LinAlg/SearchSpace.h', "qr.householderQ() * Matrix::Identity(W.rows(), rank);", "qr.matrixQ().leftCols(rank);")], 'another rank-revealing factorization')
+   ('LinAlg/SearchSpace.h', "qr.householderQ() * Matrix::Identity(W.rows(), rank);", "qr.matrixQ().leftCols(rank);"),
+   ('LinAlg/SearchSpace.h', "while (rank < qr.nonzeroPivots() && std::abs(qr.matrixR()(rank, rank)) > new_dir_thresh)", "while (rank < qr.nonzeroPivots() && std::abs(qr.matrixQR()(rank, rank)) > new_dir_thresh)")], 'another rank-revealing factorization')
 N('davidson-correction-count-from-ritz-values', 'C15',
   [('DavidsonSymEigsSolver.h', "Index(residues.cols()));", "Index(eigvals.size()));")], 'same count from the other array')
+
+# ----------------------------------------------------------------------------- F45
+M('arnoldi-extension-keeps-advertising-its-dimension', 'C07', 'interrupted-extension-advertises-no-dimension',
+  [('LinAlg/Arnoldi.h', "        m_k = 0;\n\n        // Keep the upperleft k x k submatrix of H", "        // Keep the upperleft k x k submatrix of H")], 'reverts fix F45 (Arnoldi)')
+M('lanczos-dimension-withdrawn-after-the-first-step', 'C07', 'interrupted-extension-advertises-no-dimension',
+  [('LinAlg/Lanczos.h', "        m_k = 0;\n\n        // Keep the upperleft k x k submatrix of H", "        // Keep the upperleft k x k submatrix of H"),
+   ('LinAlg/Lanczos.h', "            // H[i+1, i+1] = <v, w> = (v^H)Bw\n", "            m_k = 0;\n            // H[i+1, i+1] = <v, w> = (v^H)Bw\n")], 'withdrawn only after the operator has been applied once')
 
 # ----------------------------------------------------------------------------- F44
 M('complexshift-double-root-from-the-quadratic', 'C02', 'back-transformation-conditioned-at-the-double-root',
